@@ -26,6 +26,9 @@ type groupModel struct {
 	onState  func(mg *mgroup)
 	onMemberGone func(mg *mgroup, id, why string)
 	onPlan   func(mg *mgroup, rec *genRecord)
+	onIssued func(client, member string, gen int32)
+	onFenced func(client string, c *simConn, corr int32)
+	onOffsetFetch func(client, key string, off int64)
 }
 
 type storedOffset struct {
@@ -131,6 +134,9 @@ func (g *groupModel) serve(br *mbroker, c *simConn, h reqHeader, body interface{
 			default:
 				if so := g.stored(r.ConsumerGroup, key); so != nil {
 					blk.Offset, blk.Metadata = so.offset, so.metadata
+				}
+				if g.onOffsetFetch != nil {
+					g.onOffsetFetch(h.client, key, blk.Offset)
 				}
 			}
 			if fault != nil && fault.Do == "missing-block" {
